@@ -111,6 +111,19 @@ def fn_code_hash(fn: Callable, salt: str = None, environment: bytes = None) -> s
                 o.co_stacksize,
                 o.co_varnames,
             ]
+            # Attributes that also affect behavior. They are appended only when non-trivial so
+            # that hashes of functions that do not use these features are unchanged.
+            if o.co_posonlyargcount:
+                attr_values.append({"co_posonlyargcount": o.co_posonlyargcount})
+            exception_table = getattr(o, "co_exceptiontable", b"")
+            if exception_table:
+                attr_values.append(
+                    {
+                        "co_exceptiontable": base64.b64encode(exception_table).decode(
+                            "utf-8"
+                        )
+                    }
+                )
             if salt:
                 sha256.update(salt.encode("utf-8"))
             sha256.update(json.dumps(attr_values, sort_keys=True).encode("utf-8"))
@@ -127,6 +140,14 @@ def fn_code_hash(fn: Callable, salt: str = None, environment: bytes = None) -> s
     if hasattr(fn, "__code__"):
         code = getattr(fn, "__code__")  # type: code
         result = hash_if_code_object(code)
+        # Default parameter values are not part of the code object
+        defaults = getattr(fn, "__defaults__", None)
+        kwdefaults = getattr(fn, "__kwdefaults__", None)
+        if defaults or kwdefaults:
+            sha256 = hashlib.sha256()
+            sha256.update(result.encode("utf-8"))
+            sha256.update(_stable_repr((defaults, kwdefaults)).encode("utf-8"))
+            result = sha256.hexdigest()[0:16]
         return result
     else:
         # If we can't get the code for the function, then return the name of the function
